@@ -6,6 +6,7 @@ package main
 import (
 	"fmt"
 	"math/rand"
+	"regexp"
 	"sort"
 	"strings"
 
@@ -16,6 +17,8 @@ import (
 )
 
 func init() { props["C18"] = runC18 }
+
+var nsValueLine = regexp.MustCompile(`(?m)^  (any|project|region) = .*$`)
 
 // shiftS moves every range of file `file` in a rendered result: positions with byte >= at move by (dl lines, db bytes)
 func shiftS(s S, file string, at, dl, db, srcLen int) S {
@@ -189,6 +192,43 @@ func runC18(run *Run, replay string) {
 				}
 			}
 		}
+		nsTyping := false
+		var nsPoints []int
+		if bi%6 == 2 && len(typedAt) == 0 {
+			// a namespaced function name being typed as an attribute value inside a block (the parser reports a
+			// syntax error for that value only; the rest of the file parses cleanly)
+			src0 := string(sc.Src)
+			sc0Body := sc.Main.Ctx.Files[sc.File].Body
+			if loc := nsValueLine.FindStringSubmatchIndex(src0); loc != nil && !strings.Contains(src0[loc[0]:loc[1]], "<<") {
+				valStart := loc[3] + 3
+				typed := []string{"provider::a::", "provider::a", "provider::"}[(bi/6)%3]
+				nsrc0 := src0[:valStart] + typed + src0[loc[1]:]
+				files := map[string]string{}
+				for n, b := range sc.Main.Src {
+					files[n] = string(b)
+				}
+				files[sc.File] = nsrc0
+				w0 := newWorld()
+				pd0 := w0.AddPath(sc.Main.Path.Path, sc.Main.Schema, files, sc.Main.Ctx.Functions)
+				if pd0.Ctx.Files[sc.File] != nil {
+					if _, ok := pd0.Ctx.Files[sc.File].Body.(*hclsyntax.Body); ok {
+						sc = &Scenario{W: w0, Main: pd0, File: sc.File, Src: []byte(nsrc0), Kind: sc.Kind + "-typing-function-name"}
+						typedAt = append(typedAt, valStart+len(typed), valStart+len("provider::"))
+						nsTyping = true
+						// insertion points: before the top-level items up to the block holding the value being typed (behind
+						// it the parser's recovery decides what the items are)
+						if b0, ok := sc0Body.(*hclsyntax.Body); ok {
+							for _, b := range b0.Blocks {
+								if b.Range().Start.Byte <= valStart {
+									nsPoints = append(nsPoints, b.Range().Start.Byte)
+								}
+							}
+						}
+						run.Count("typing_states_function_name")
+					}
+				}
+			}
+		}
 		body := sc.Main.Ctx.Files[sc.File].Body.(*hclsyntax.Body)
 		var points []int
 		for _, a := range body.Attributes {
@@ -198,6 +238,9 @@ func runC18(run *Run, replay string) {
 			points = append(points, b.Range().Start.Byte)
 		}
 		points = append(points, len(sc.Src))
+		if nsTyping {
+			points = nsPoints
+		}
 		r.Shuffle(len(points), func(i, j int) { points[i], points[j] = points[j], points[i] })
 		if len(points) > 3 && !run.Thorough {
 			points = points[:3]
@@ -212,7 +255,7 @@ func runC18(run *Run, replay string) {
 				nrefs++
 			}
 		}
-		if len(typedAt) > 0 {
+		if len(typedAt) > 0 && !nsTyping {
 			// also insert right before the line being typed
 			points = append([]int{typedAt[0]}, points...)
 			run.Count("typing_states")
@@ -255,11 +298,12 @@ func runC18(run *Run, replay string) {
 				if want != got {
 					key := "C18/result-changed/" + strings.SplitN(q1.Name, "(", 2)[0]
 					qn := strings.SplitN(q1.Name, "(", 2)[0]
-					if q1.Pos != nil && q2.Pos != nil && (qn == "CompletionAtPos" || qn == "HoverAtPos") && strings.Contains(want+got, "\"self") &&
+					if q1.Pos != nil && q2.Pos != nil && ((qn == "HoverAtPos" && strings.Contains(want+got, "\"self")) || qn == "CompletionAtPos") &&
 						(crossFileSelfAt(sc.Main, sc.File, *q1.Pos) || crossFileSelfAt(s2.Main, s2.File, *q2.Pos)) {
 						// Target.Address(ctx, pos) decides between "self" and the absolute address by the byte range the
 						// declaration is addressable from, without looking at the file: a declaration of ANOTHER file
-						// whose byte range happens to contain the cursor is labelled self.*
+						// whose byte range happens to contain the cursor is labelled self.* (and, in completion, then
+						// offered as self.* or - when that label does not start with the typed text - not offered)
 						key += "/self-address-chosen-by-byte-range-of-another-file"
 					}
 					run.Violate(Violation{Key: key, Rule: "inserting blank or comment lines changes nothing except that positions at or after the insertion point move",
